@@ -148,8 +148,6 @@ def expr(node, param: str):
                 return ["isnan", expr(node.args[0], param)]
             if (f.value.id, f.attr) == ("np", "isscalar") and len(node.args) == 1 and not node.keywords:
                 return ["isscalar", expr(node.args[0], param)]
-            if False:
-                pass
             if (f.value.id, f.attr) == ("common", "is_method") and len(node.args) == 2 and not node.keywords:
                 items = const_value(node.args[1])
                 if not isinstance(items, list):
